@@ -85,7 +85,7 @@ pub fn long_input(c: &LongCase) -> String {
     let unit: &str = if c.unit.is_empty() { "a" } else { &c.unit };
     let n = c.n as usize;
     let rep = |u: &str, bytes: usize| u.repeat((bytes / u.len().max(1)).max(1));
-    let mut s = match c.kind % 12 {
+    let mut s = match c.kind % 14 {
         0 => format!("pkg:t/{}", rep(unit, n)),
         1 => format!("pkg:t/n@{}", rep(unit, n)),
         2 => format!("pkg:t/n?k={}", rep(unit, n)),
@@ -94,7 +94,7 @@ pub fn long_input(c: &LongCase) -> String {
         5 => format!("pkg:t/n#{}", rep(&format!("{unit}/"), n)),
         6 => {
             // up to 20 000 qualifiers, ascending / descending / repeated keys
-            let count = (n / 12).min(20_000).max(1);
+            let count = (n / 12).clamp(1, 20_000);
             let mut q = String::with_capacity(count * 12);
             for i in 0..count {
                 let k = match c.kind / 12 % 3 {
@@ -113,6 +113,9 @@ pub fn long_input(c: &LongCase) -> String {
         8 => format!("pkg:{}/n", rep(unit, n)),
         9 => format!("pkg:{}", rep(unit, n)),
         10 => format!("pkg:t/n?{}=v", rep(unit, n)),
+        // long digests: lower-case, upper-case and mixed hex, even and odd lengths
+        12 => format!("pkg:t/n?checksum=a:{}", rep(["ab", "AB", "aB", "0"][(c.kind / 14 % 4) as usize], n.min(8192))),
+        13 => format!("pkg:t/n?checksum=a:00,b:{},c:{}", rep("Cd", n.min(4096)), rep("ef", 300)),
         _ => rep(unit, n),
     };
     if s.len() > MIB {
